@@ -160,11 +160,11 @@ pub fn property() -> Property {
             |_| prop::collection::vec((0u8..40, atom_line(10)), 0..8).prop_map(|v| DocCase { text: v.into_iter().map(|(n, l)| format!("{} {}", n % 6 * 10, l)).collect::<Vec<_>>().join("\n") }),
             check,
         ),
-        prop_family("raw-text", 30_000, 1_000_000, |_| prop_oneof![any::<String>(), "\\PC{0,80}", "([0-9]{1,3} [ -~]{0,20}\n){0,6}"].prop_map(|text| DocCase { text }), check),
+        prop_family("raw-text", 30_000, 1_000_000, |_| prop_oneof![any::<String>(), "\\PC{0,80}", "([0-9]{1,3} [ -~]{0,20}\n){0,6}", "\u{feff}?([ \t\u{a0}]?[0-9]{1,3} ?[ -~é€😊]{0,16}\r?\n){0,5}"].prop_map(|text| DocCase { text }), check),
     ];
     Property {
         id: "C05",
-        rule: "File texts: grammar-generated programs (INPUT/STOP allowed) rendered with random spacing/case and mutated at document level (blank / unnumbered / bare-number lines, duplicates of an earlier number that are identical / different / untokenizable / multi-byte / truncated, untokenizable tails, u64-boundary line numbers, garbage lines, non-ASCII tails, truncation, swaps, CRLF variants); character-level mutations of the repo's sample programs; documents of random atom lines over few colliding numbers; raw Unicode and printable text. deep-nesting: 16 nesting / token-run constructs x depths to 30000 (quick) / 300000 (thorough) analyzed in child processes on a 1 MiB stack, judged by exit status. Oracle: analyze returns; one token list per file line; every message maps to Some((line, range)) with line == the line it names, range inside the line and on char boundaries; per-line token ranges ordered, disjoint, in bounds, on char boundaries. Non-trivial: >= 2 numbered lines and >= 1 diagnostic carrying a program location; distinct by text.",
+        rule: "File texts: grammar-generated programs (INPUT/STOP allowed) rendered with random spacing/case and mutated at document level (blank / unnumbered / bare-number lines, duplicates of an earlier number that are identical / different / untokenizable / multi-byte / truncated, untokenizable tails, u64-boundary line numbers, garbage lines, non-ASCII tails, truncation, swaps, line prefixes such as a byte order mark / indentation / no-break, zero-width and ideographic spaces - half of them on the first file line, CRLF variants); character-level mutations of the repo's sample programs; documents of random atom lines over few colliding numbers; raw Unicode and printable text. deep-nesting: 16 nesting / token-run constructs x depths to 30000 (quick) / 300000 (thorough) analyzed in child processes on a 1 MiB stack, judged by exit status. Oracle: analyze returns; one token list per file line; every message maps to Some((line, range)) with line == the line it names, range inside the line and on char boundaries; per-line token ranges ordered, disjoint, in bounds, on char boundaries. Non-trivial: >= 2 numbered lines and >= 1 diagnostic carrying a program location; distinct by text.",
         assumptions: vec!["native-stack exhaustion is decided by the child-process family (1 MiB stack, optimised harness build), not in-process"],
         fuzz: Some(FuzzSpec { target: "c05_analyze", runs: 400_000, max_len: 2048, verdict: crate::fuzz::c05_verdict }),
         families,
